@@ -1,6 +1,8 @@
 import AITB.Model.Proto
 import AITB.Model.POMDP
+import AITB.Model.POMDPSolve
 import AITB.Gen.C02Sites
+import Driver.C02LP
 open AITB AITB.POMDP
 open AITB.MDP (sumTo maxTo argmaxTo Vec mkVec absR)
 
@@ -11,6 +13,7 @@ open AITB.MDP (sumTo maxTo argmaxTo Vec mkVec absR)
 
   C02 vf <solver> <rep> <dyadic> <pomdp> <h> | <nLists> { <nVec> { <action> <S values> } } | <nB> { <S weights> } | <nB> { value }
   C02 rtbss <rep> <dyadic> <pomdp> <h> <maxR> <S belief> | <action> <value>
+  C02 vftol <solver> <rep> <dyadic> <pomdp> <h> <tol> | <variation> | <nLists> { <nVec> { <action> <S values> } }
 -/
 namespace DrvC02
 
@@ -34,6 +37,11 @@ def entryP (S : Nat) : P (Nat × Vec) := do let a ← P.nat; let v ← vecP S; p
 def showVec (v : Vec) : String := " ".intercalate (v.toList.map ratStr)
 
 def isPow2 (n : Nat) : Bool := n == 1 || n == 2 || n == 4 || n == 8
+
+/-- some entry has magnitude ≥ 2^17 (`ilogb > 16`: the regime where WitnessLP rescales its rows, and where `findVerticesNaive`'s QR meets
+    rows of very different scale).  Part of the clause name, so that a finding known for that regime does not mask a failure elsewhere. -/
+def bigMag (vs : List Vec) : Bool := vs.any (fun v => v.any (fun x => decide (absQ x ≥ 131072)))
+def magSfx (vs : List Vec) : String := if bigMag vs then "_large_magnitude" else ""
 
 /-- does some member of `l` equal `v` on the first n entries (exactly, or to 1e-9)? -/
 def memVec (exact : Bool) (n : Nat) (l : List Vec) (v : Vec) : Bool :=
@@ -130,6 +138,44 @@ def witnessModelUnion (m : Model) (τ : Rat) (prev : List Vec) (fuel : Nat) : Li
     let st := wLoop m.S m.O P (exactWitness m.S) (bestChoice m.S m.O P) fuel (wInit m.O)
     (acc.1 ++ st.U.map (choiceSum m.S m.O P), acc.2 && st.agenda.isEmpty)) ([], true)
 
+/-- UNTRUSTED finder of multipliers λ ≥ 0, Σλ = 1 with Σ λ_i α_i ≥ β (a single dominating vector, else the exact simplex on
+    max t s.t. Σ λ_i α_i(s) − t ≥ β(s)); accepted only through `domBy`.  When the optimum is negative the dual multipliers of the
+    domination rows, normalised, are a belief at which β beats the list. -/
+def findLam (S : Nat) (cur : List Vec) (β : Vec) : Except (Option Vec) (List Rat) :=
+  let k := cur.length
+  match cur.findIdx? (fun α => allLt S (fun s => decide (β.get s ≤ α.get s))) with
+  | some i => .ok ((List.range k).map (fun j => if j == i then 1 else 0))
+  | none =>
+    let rowsDom := (List.range S).map (fun s => (⟨cur.map (fun α => α.get s) ++ [-1], β.get s⟩ : DrvC02LP.GeRow))
+    let rowsNN := (List.range k).map (fun i => (⟨(List.range (k+1)).map (fun j => if j == i then 1 else 0), 0⟩ : DrvC02LP.GeRow))
+    let rowSum1 : DrvC02LP.GeRow := ⟨List.replicate k 1 ++ [0], 1⟩
+    let rowSum2 : DrvC02LP.GeRow := ⟨List.replicate k (-1) ++ [0], -1⟩
+    let c : List Rat := List.replicate k 0 ++ [-1]
+    match DrvC02LP.simplex (k+1) (rowsDom ++ rowsNN ++ [rowSum1, rowSum2]) c with
+    | .optimal x y =>
+      let lam := x.take k
+      if domBy S cur lam β then .ok lam
+      else
+        let w := y.take S
+        let tot := w.foldl (· + ·) 0
+        .error (if tot > 0 then some (w.map (· / tot)).toArray else none)
+    | _ => .error none
+
+/-- certificates for one timestep: one λ per vector of the full backup of `prev` (by position), or the first uncovered vector with a
+    belief where it beats `cur` -/
+def coverCerts (m : Model) (τ : Rat) (prev cur : List Vec) : Except (Vec × Option Vec) (Array (List Rat)) := Id.run do
+  let full := backupAll m τ prev
+  let mut out : Array (List Rat) := #[]
+  for β in full do
+    match findLam m.S cur β with
+    | .ok lam => out := out.push lam
+    | .error w => return .error (β, w)
+  return .ok out
+
+def listsP (S : Nat) : P (List (List (Nat × Vec))) := do
+  let nl ← P.nat
+  P.rep (P.list (entryP S)) nl
+
 def vf : P String := do
   let solver ← P.tok; let _rep ← P.tok; let dyadic ← P.bool
   let m ← pomdpP; let h ← P.nat; P.bar
@@ -168,6 +214,38 @@ def vf : P String := do
     return ok
   let zeroOK := match vecLists.head? with | some [z] => vecEqN m.S z (vzero m.S) | _ => false
   let certified := sizesOK && zeroOK && checkChain m τ [vzero m.S] (vecLists.drop 1)
+  -- (ii-all) exact mode: the COMPLETE clause.  For every timestep, every vector of the full backup of the previous returned list must be
+  -- convexly dominated by the returned list (multipliers from the untrusted exact simplex, verified by `checkExactChain`; soundness
+  -- `checkExactChain_sound_from_zero`: accepted ⇒ returned surface = expectimax at EVERY belief).  An uncovered vector comes with a belief
+  -- (dual solution) at which the returned surface is below the backup: a failing input.
+  let v := if !(certified && exact) then v else Id.run do
+    let mut v := v
+    let mut prev : List Vec := [vzero m.S]
+    let mut certs : List (Nat → List Rat) := []
+    let mut complete := true
+    let mut t := 0
+    for cur in vecLists.drop 1 do
+      t := t + 1
+      if complete then
+        if backupSize m τ prev > 1500 || cur.length > 16 then complete := false
+        else match coverCerts m τ prev cur with
+          | .ok arr => certs := certs ++ [fun i => arr.getD i []]
+          | .error (β, w) =>
+            complete := false
+            match w with
+            | some b =>
+              let e := expectimax m t b
+              let i := env m.S cur b
+              if simplexB m.S b && decide (i < e) then
+                let sfx := (if m.S ≤ 2 then "_S2" else "") ++ magSfx (vecLists.flatten)
+                v := v.failIf true s!"{solver} value_below_expectimax{sfx} t={t} b=[{showVec b}] impl={ratStr i} expectimax={ratStr e} uncovered=[{showVec β}]"
+              else v := { v with tag := v.tag ++ " cover_uncertified" }
+            | none => v := { v with tag := v.tag ++ " cover_uncertified" }
+      prev := cur
+    if complete then
+      if checkExactChain m τ [vzero m.S] (vecLists.drop 1) certs then v := { v with tag := v.tag ++ " all_beliefs_certified" }
+      else v := v.diffIf true s!"{solver} checkExactChain_rejects_found_certificates"
+    return v
   let v := if certified then { v with tag := v.tag ++ " upper_certified" } else Id.run do
     let mut v := v
     let mut prev : List Vec := [vzero m.S]
@@ -202,7 +280,7 @@ def vf : P String := do
         let i := env m.S last b
         if !(closeQ tol9 i e) then
           -- the state-count class is part of the kind so that a finding known for S ≥ 3 does not mask a failure on S = 2
-          let sfx := if m.S ≤ 2 then "_S2" else ""
+          let sfx := (if m.S ≤ 2 then "_S2" else "") ++ magSfx (vecLists.flatten)
           let kind := (if i < e then "value_below_expectimax" else "value_above_expectimax") ++ sfx
           v := v.failIf true s!"{solver} {kind} b=[{showVec b}] impl={ratStr i} expectimax={ratStr e}"
         else if exact && i != e then
@@ -221,7 +299,7 @@ def vf : P String := do
           let tv := maxTo (m.A - 1) (qOf m (env m.S prev) x)
           let cv := env m.S cur x
           if !(closeQ tol9 tv cv) && decide (cv < tv) then
-            v := v.failIf true s!"{solver} stopping_test_violated t={t} x=[{showVec x}] backup={ratStr tv} current={ratStr cv}"
+            v := v.failIf true s!"{solver} stopping_test_violated{magSfx (vecLists.flatten)} t={t} x=[{showVec x}] backup={ratStr tv} current={ratStr cv}"
       prev := cur
       t := t + 1
     return v
@@ -245,7 +323,19 @@ def vf : P String := do
         let implInModel := cur.all (fun α => memVec false m.S st.good α)
         v := { v with tag := v.tag ++ " ls_loop_model" }
         if !(modelInImpl && implInModel) then
-          v := v.diffIf true s!"{solver} loop_model_set t={t} model={st.good.length} impl={cur.length} modelInImpl={modelInImpl} implInModel={implInModel} agendaLeft={st.agenda.length}"
+          -- The vertices LinearSupport examines are solutions of linear systems, not dyadic: where two backups tie EXACTLY at such a vertex
+          -- (symmetric instances) rounding decides which one the implementation takes, and whether it sees an error of 1e-15 as positive.
+          -- Both sets are then legitimate: accepted when the two surfaces coincide (corners + every partition vertex of either set) and every
+          -- vector only one side has is a genuine backup that touches the common surface at one of those points (a tying support).
+          let pts := (List.range m.S).map (cornerB m.S) ++ partitionVertices m.S cur ++ partitionVertices m.S st.good
+          let sameSurface := pts.all (fun x => closeQ tol9 (env m.S cur x) (env m.S st.good x))
+          let touches (α : Vec) : Bool := pts.any (fun x => closeQ tol9 (dot m.S x α) (env m.S cur x))
+          let extras := (cur.filter (fun α => !(memVec false m.S st.good α))) ++ (st.good.filter (fun α => !(memVec false m.S cur α)))
+          let full := backupAll m τ prev
+          if sameSurface && extras.all (fun α => touches α && memVec false m.S full α) then
+            v := { v with tag := v.tag ++ " ls_loop_model_ties" }
+          else
+            v := v.diffIf true s!"{solver} loop_model_set t={t} model={st.good.length} impl={cur.length} modelInImpl={modelInImpl} implInModel={implInModel} agendaLeft={st.agenda.length}"
       prev := cur
       t := t + 1
     return v
@@ -261,7 +351,15 @@ def vf : P String := do
         let r := witnessModelUnion m τ prev 600
         v := { v with tag := v.tag ++ " w_loop_model" }
         v := v.diffIf (!r.2) s!"{solver} loop_model_agenda_not_empty t={t}"
-        v := v.diffIf (r.2 && !(cur.all (fun α => memVec false m.S r.1 α))) s!"{solver} loop_model_missing_vector t={t} model={r.1.length} impl={cur.length}"
+        -- a returned vector the exact loop does not collect is accepted when it only differs by an exact tie (as for LinearSupport: witness
+        -- points are not dyadic, rounding decides which of two backups tying there `crossSumBestAtBelief` returns): both surfaces must
+        -- coincide at corners + partition vertices and the vector must touch the surface at one of them
+        let missing := cur.filter (fun α => !(memVec false m.S r.1 α))
+        let pts := (List.range m.S).map (cornerB m.S) ++ partitionVertices m.S cur
+        let tiesOnly := pts.all (fun x => closeQ tol9 (env m.S r.1 x) (env m.S cur x)) &&
+                        missing.all (fun α => pts.any (fun x => closeQ tol9 (dot m.S x α) (env m.S cur x)))
+        if r.2 && !missing.isEmpty && tiesOnly then v := { v with tag := v.tag ++ " w_loop_model_ties" }
+        v := v.diffIf (r.2 && !missing.isEmpty && !tiesOnly) s!"{solver} loop_model_missing_vector t={t} model={r.1.length} impl={cur.length}"
         v := v.diffIf (r.2 && !(bs.all (fun b => closeQ tol9 (env m.S r.1 b) (env m.S cur b)))) s!"{solver} loop_model_envelope t={t}"
       prev := cur
       t := t + 1
@@ -271,6 +369,121 @@ def vf : P String := do
   let v := (bs.zip vals).foldl (fun v (bv : Vec × Rat) =>
       v.diffIf (!(closeQ tol9 (env m.S last bv.1) bv.2)) s!"{solver} findBestAtPoint value model={ratStr (env m.S last bv.1)} impl={ratStr bv.2}") v
   return v.render
+
+/-- geometric sum 1 + γ + … + γ^(t-1) -/
+def geoSum (γ : Rat) : Nat → Rat
+  | 0 => 0
+  | t+1 => 1 + γ * geoSum γ t
+
+/-- `C02 vftol <solver> <rep> <dyadic> <pomdp> <h> <tol> | <variation> | lists`: the outer loop with a tolerance.
+    The model of the loop (`solveOuter`, theorems `solver_loop_exact`, `solver_loop_tol0_horizon`, `outerGo_early_stop`,
+    `outerGo_variation`, `wbd_sound`) is replayed on the implementation's OWN lists (step = "the list the implementation produced for
+    that timestep"): it must stop where the implementation stopped and return the same variation. -/
+def vftol : P String := do
+  let solver ← P.tok; let _rep ← P.tok; let dyadic ← P.bool
+  let m ← pomdpP; let h ← P.nat; let tol ← P.q; P.bar
+  let ivar ← P.q; P.bar
+  let lists ← listsP m.S
+  P.eof
+  let τ := AITB.Gen.equalToleranceSmall
+  if !(validB m) then return "skip invalid_model"
+  if !(sepB m τ) then return "skip ill_conditioned"
+  if decide (tol < 0) then return "skip negative_tolerance"
+  let vecLists : List (List Vec) := lists.map (·.map (·.2))
+  let nl := vecLists.length
+  let useTol := useTolerance τ tol
+  let exact := dyadic && isPow2 m.O && nl ≤ 4
+  let v : Verdict := { tag := s!"vftol h{h} S{m.S} lists{nl}" ++ (if useTol then " tolerance" else " tolerance_read_as_zero") ++ (if nl < h + 1 then " stopped_early" else "") }
+  let v := v.failIf (nl == 0) s!"{solver} empty_value_function"
+  if nl == 0 then return v.render
+  let zeroOK := match vecLists.head? with | some [z] => vecEqN m.S z (vzero m.S) | _ => false
+  let v := v.failIf (!zeroOK) s!"{solver} horizon0_not_zero"
+  let v := v.failIf (vecLists.any (·.isEmpty)) s!"{solver} empty_value_function"
+  if vecLists.any (·.isEmpty) then return v.render
+  -- the loop model on the implementation's own lists
+  let (mvar, mlists) := solveOuter m.S (fun t _ => vecLists.getD t []) τ tol h
+  let v := v.failIf (nl > h + 1) s!"{solver} wrong_number_of_timesteps {nl}"
+  let v := v.failIf (nl < mlists.length) (s!"{solver} stopped_before_horizon lists={nl} horizon={h} " ++
+            s!"variation_of_last_two={ratStr (lastTwo vecLists)} tolerance={ratStr tol}")
+  let v := v.diffIf (nl > mlists.length && nl ≤ h + 1) s!"{solver} continued_after_tolerance lists={nl} model={mlists.length}"
+  let v := if nl != mlists.length then v else
+    v.diffIf (!(if exact then mvar == ivar else closeQ tol9 mvar ivar)) s!"{solver} variation model={ratStr mvar} impl={ratStr ivar}"
+  -- `wbd_sound` on the implementation's lists: a returned variation ≤ tol bounds the last step's gain at every belief (checked at corners + extras)
+  -- upper side for all beliefs: every vector is a backup of the previous returned list
+  let sizesOK := Id.run do
+    let mut ok := true
+    let mut prev : List Vec := [vzero m.S]
+    for cur in vecLists.drop 1 do
+      if backupSize m τ prev > 30000 then ok := false
+      prev := cur
+    return ok
+  let t := nl - 1
+  let last := vecLists.getLastD []
+  let v := if !sizesOK then { v with tag := v.tag ++ " too_large" } else Id.run do
+    let mut v := v
+    let mut prev : List Vec := [vzero m.S]
+    let mut k := 0
+    for cur in vecLists.drop 1 do
+      k := k + 1
+      let full := backupAll m τ prev
+      for α in cur do
+        if !(memVec false m.S full α) then v := v.failIf true s!"{solver} vector_not_a_backup t={k} [{showVec α}]"
+      prev := cur
+    return v
+  -- lower side: exact for IncrementalPruning / Witness (the tolerance only stops the loop) and for LinearSupport when the tolerance reads
+  -- as zero; LinearSupport with tolerance ε may lose (ε + checkEqualGeneral slack) per timestep, discounted (`lsAccept_false_bound`,
+  -- `linear_support_exact_of_cover` with that ε)
+  let lsEps : Rat := if solver == "LinearSupport" then tol + AITB.MDP.tieSlack tol else 0
+  let slack : Rat := lsEps * geoSum m.γ t
+  let verts := if last.length ≤ 24 then partitionVertices m.S last else []
+  let allB := (List.range m.S).map (cornerB m.S) ++ extraBeliefs m.S ++ verts
+  let v := Id.run do
+    let mut v := v
+    for b in allB do
+      if simplexB m.S b then
+        let e := expectimax m t b
+        let i := env m.S last b
+        let sfx := (if m.S ≤ 2 then "_S2" else "") ++ magSfx (vecLists.flatten)
+        if !(closeQ tol9 i e) && decide (e < i) then
+          v := v.failIf true s!"{solver} value_above_expectimax{sfx} t={t} b=[{showVec b}] impl={ratStr i} expectimax={ratStr e}"
+        else if !(closeQ tol9 (i + slack) e) && decide (i + slack < e) then
+          v := v.failIf true s!"{solver} value_below_expectimax{sfx} t={t} tol={ratStr tol} b=[{showVec b}] impl={ratStr i} expectimax={ratStr e} allowed_loss={ratStr slack}"
+        else if exact && slack == 0 && i != e then
+          v := v.diffIf true s!"{solver} value_not_bit_exact b=[{showVec b}] impl={ratStr i} expectimax={ratStr e}"
+    return v
+  -- LinearSupport's ε stopping test at the corners and every partition vertex of every returned timestep (conclusion of `ls_break_tested`
+  -- for the acceptance test as written, `lsAccept`)
+  let v := if solver != "LinearSupport" then v else Id.run do
+    let mut v := v
+    let mut prev : List Vec := [vzero m.S]
+    let mut k := 0
+    for cur in vecLists.drop 1 do
+      k := k + 1
+      if cur.length ≤ 24 then
+        let pts := (List.range m.S).map (cornerB m.S) ++ partitionVertices m.S cur
+        for x in pts do
+          let tv := maxTo (m.A - 1) (qOf m (env m.S prev) x)
+          let cv := env m.S cur x
+          if lsAccept tol (tv - cv) && !(closeQ tol9 (tv - cv) tol) && !(closeQ tol9 tv (cv + tol)) then
+            v := v.failIf true s!"{solver} stopping_test_violated{magSfx (vecLists.flatten)} t={k} tol={ratStr tol} x=[{showVec x}] backup={ratStr tv} current={ratStr cv}"
+      prev := cur
+    return v
+  return v.render
+where
+  lastTwo (l : List (List Vec)) : Rat :=
+    match l.reverse with
+    | cur :: prev :: _ => wbd (cur.headD #[]).size prev cur
+    | _ => 0
+
+/-- `C02 hang <solver> <rep> <dyadic> <pomdp> <h> <tol> <seconds>`: the harness killed a solver run that did not return within the
+    limit (the other solvers need milliseconds on the same instance).  A solver that does not return computes no value: the property fails
+    on this instance. -/
+def hang : P String := do
+  let solver ← P.tok; let _rep ← P.tok; let _dyadic ← P.bool
+  let m ← pomdpP; let h ← P.nat; let _tol ← P.q; let secs ← P.nat; P.eof
+  if !(validB m) then return "skip invalid_model"
+  let v : Verdict := { tag := s!"hang h{h} S{m.S}" }
+  return (v.failIf true s!"{solver} does_not_terminate killed_after={secs}s S={m.S} A={m.A} O={m.O} h={h}").render
 
 def rtbss : P String := do
   let _rep ← P.tok; let dyadic ← P.bool
@@ -370,12 +583,14 @@ def verts : P String := do
   let v : Verdict := { tag := s!"verts S{S}" ++ (if simple.isEmpty then " trivial" else "") }
   let onFace (x : Vec) : Bool := (List.range S).any (fun s => x.get s == 0)
   let v := simple.foldl (fun v x =>
-    v.failIf (!(found x)) (s!"findVerticesNaive " ++ (if onFace x then "boundary_vertex_not_found" else "interior_vertex_not_found") ++ s!" x=[{showVec x}]")) v
+    v.failIf (!(found x)) (s!"findVerticesNaive " ++ (if onFace x then "boundary_vertex_not_found" else "interior_vertex_not_found") ++ magSfx planes ++ s!" x=[{showVec x}]")) v
   return v.render
 
 def handle (toks : List String) : String :=
   let r := match toks with
     | "vf" :: rest => P.run vf rest
+    | "vftol" :: rest => P.run vftol rest
+    | "hang" :: rest => P.run hang rest
     | "rtbss" :: rest => P.run rtbss rest
     | "verts" :: rest => P.run verts rest
     | _ => none
